@@ -675,6 +675,7 @@ func c04Scenarios(tier string) []*Scenario {
 	}
 	for _, pm := range perms(2) {
 		out = append(out, c04Scenario(c04P{Callers: 2, Perm: pm}, b2))
+		out = append(out, c04Scenario(c04P{Callers: 2, Perm: pm}, Bounds{1, 1, 1})) // with one environment deviation
 		out = append(out, c04Scenario(c04P{Callers: 0, Perm: pm}, b2))
 		out = append(out, c04Scenario(c04P{Callers: -1, Perm: pm}, b2))
 		for _, nz := range c04Noises {
